@@ -33,7 +33,7 @@ SPEC = {
                    "PdModel/Driver/RegionText.lean"],
     "gen": {
         "quick": {"args": ["-n", "250", "-len", "160", "-conc"], "streams": 8},
-        "thorough": {"args": ["-n", "1200", "-len", "200", "-conc"], "streams": 16},
+        "thorough": {"args": ["-n", "1200", "-len", "200", "-conc", "-race", "150", "-scanrace", "3", "-scanpasses", "60"], "streams": 16},
     },
     "search": {"args": ["-n", "60", "-len", "200", "-conc"], "streams": 8},
     "nontrivial": nontrivial,
@@ -52,7 +52,12 @@ SPEC = {
             "so Stringer log fields run; every second stream runs one sequence through Server.RegionHeartbeat of an in-process "
             "PD server (in-memory gRPC server streams, one per store, stores re-open their stream and the first message on a "
             "new stream is often outdated; observed: on which stream an error answer arrives); a panic anywhere on the path is "
-            "recovered and reported (sig=C06.heartbeat-path-panicked); every 4th sequence also delivers batches of 2-5 "
+            "recovered and reported (sig=C06.heartbeat-path-panicked); a third of the sequences end with a `race` op (30 rounds, 150 thorough, of 8 concurrent heartbeats of ONE region with "
+            "ever higher versions while a client polls GetRegion: the version never goes back, the highest is served at the end); "
+            "every stream ends with `scanrace` (300 / 200 / 420 contiguous regions, one goroutine merging and splitting pairs "
+            "around positions 128 / 256 / 384 through processRegionHeartbeat while three goroutines call ScanRegions over "
+            "everything; the first two neighbouring entries of an answer that are not disjoint / in order are reported and "
+            "judged by Spec.C06.ScanAnswerOk); every 4th sequence also delivers batches of 2-5 "
             "heartbeats from concurrent goroutines (judged by the monitor: explained by some one-at-a-time order); non-trivial = "
             "at least 5 accepted and 1 rejected heartbeat and at least two regions served at once; distinct = distinct op sequence",
     "model_text": "PdModel/Model/RegionCache.lean: PreCheckPutRegion/getRelevantRegions, the flag computation, the locked "
@@ -79,7 +84,7 @@ SPEC = {
                   "property's domain and does corrupt the real tree (docs/C06.md); concurrent batches on the real code are judged by "
                   "the monitor only (schedules not controlled); the batched region storage (RegionStorage.save/remove/flush), reload and the "
                   "held-heartbeat steps and the server-stream answers are modelled and monitored (StepOkBatched / FlushOk / GateOk / ReleaseOk "
-                  "/ StreamOk) but have no theorem; that the error answer goes back on the sender's stream additionally rests on the "
+                  "/ StreamOk / RaceOk / ScanAnswerOk) but have no theorem; that the error answer goes back on the sender's stream additionally rests on the "
                   "call-order facts of error_answer_goes_to_the_sender; "
                   "RegionStorage's 3 s background flush timer is not modelled (a sequence never idles that long); storage errors are not injected; the -race build is not used.",
     "technique": "Lean 4 refinement + invariant proofs over heartbeat histories and interleavings + differential correspondence + verified monitor",
